@@ -594,7 +594,7 @@ def run(chk, tier, seed):
         "harness-derive/expander (extracts collect_derive's source with syn and normalises its output tokens)",
         "harness-derive/shapegen.py (generator; Rust/Coq/JSON renderers of one shape) and the generated corpus program "
         "(recording Trace impl, pointer tokens identified by address)",
-        "translator-derive (structural fact extraction)",
+        "translator-derive (structural fact extraction after normalisation: single-call helpers spliced, match / if-let / early return / let-bound conditions brought to one if-chain shape, locals renamed by role)",
         "rustc 1.95 as the oracle for accept/reject of probes and for what the emitted guards mean "
         "(conflicting-impl check, 'static and trait bounds)",
         "modelled, not verified: NEEDS_TRACE / trace of the field types themselves (C16) - measured by the harness, "
